@@ -24,6 +24,10 @@ def gen_cases(seed, tier):
         spec = G.gen_network(rng, max_order=rng.choice([2, 3, 4, 4, 6]), nrx=(1, 4), nsp=(1, 5), allow_delay=rng.random() < 0.4)
         # delayed parts enter the safe interface's requirement table: include "taken now, handed back after the delay" and
         # "taken after the delay" shapes (immediate and delayed coefficients of opposite / equal sign) -- seeded change S2_C01
+        # zero-order mass action written with an explicit blank species string: evaluated by the GENERAL mass-action class with no
+        # species (k in the plain modes, k*V in the volume modes) instead of the constitutive class  (seeded change S3_C01)
+        for rx in spec["reactions"]:
+            if rx["type"] == "massaction" and not rx["reactants"] and rng.random() < 0.5: rx["params"]["species"] = " "
         for rx in spec["reactions"]:
             if "delay" in rx and rx["reactants"] and rng.random() < 0.5: rx["delay"]["products"] = rx["delay"]["products"] + [rx["reactants"][0]]
             if "delay" in rx and rx["products"] and rng.random() < 0.25: rx["delay"]["reactants"] = rx["delay"]["reactants"] + [rx["products"][0]]
